@@ -71,6 +71,10 @@ def run(rep, tier, rng):
             req = -1 if pi % 2 else wl["code"]
             cases.append(C.read_case(req, pbuf, None, [("it", -1)]))
             meta.append((wl, exp, committed, pl, None, pfl, False))
+            if pi % 4 == 1:
+                # the bulk read (`read` / `read_as`) of the same crash state: no panic either
+                cases.append(C.read_case(req, pbuf, None, [("readall",)]))
+                meta.append((wl, exp, committed, pl, None, pfl, "bulk"))
             # with the index: the same progress, everything, and a few other prefixes of the .shx trace
             qs = [qcuts[min(len(qcuts) - 1, (pi * len(qcuts)) // max(1, len(pcuts)))], qcuts[-1]]
             if pi % 3 == 0:
@@ -96,6 +100,37 @@ def run(rep, tier, rng):
             if opi >= last_seek0:
                 cases.append(C.read_case(-1, bw["shp"]["buf"], qbuf, [("it", -1), ("nth", 0)]))
                 meta.append((big, bexp, bcommitted, "complete", ql, 0, True))
+        # ... and the .shp of the same workload (its length field crosses a byte boundary too: 0x02EC -> 0x02FA... words),
+        # every byte cut of both header rewrites, read without index by iteration and in bulk
+        plog = bw["shp"]["log"]
+        first_seek0 = min(i for i, o in enumerate(plog) if o[0] == "s" and o[1] == 0 and i > 20)
+        for (pl, pbuf, pfl) in cuts_of(plog, 0):
+            opi = int(pl[2:].split("+")[0])
+            if opi >= first_seek0 and ("+" in pl or opi % 5 == 0):
+                cases.append(C.read_case(-1, pbuf, None, [("it", -1)]))
+                meta.append((big, bexp, bcommitted, pl, None, pfl, False))
+                cases.append(C.read_case(-1, pbuf, None, [("readall",)]))
+                meta.append((big, bexp, bcommitted, pl, None, pfl, "bulk"))
+    # one large first record (40 points): a header length field torn during the first finalize (0x0032 -> 0x018E
+    # words, torn to 0x0132) declares an end that lies INSIDE that record; every byte cut of the header rewrite, read
+    # without index by iteration and in bulk
+    for code40 in (3, 23) if tier != "thorough" else (3, 13, 23, 8):
+        one = {"code": code40, "specs": [shapes.grid_ctor(rng, code40, 1, 40, "small")], "calls": [("w", 0)]}
+        P.run_ctor_stage(rep, dev, [one], "c11one")
+        P.run_write_stage(rep, dev, [one], "c11one")
+        ow = one["written"]
+        if "special" in ow:
+            continue
+        oexp = [P.on_read(v) for v in one["values"]]
+        ocommitted = shapes_before_flush(ow["shp"]["log"], one["calls"])
+        olog = ow["shp"]["log"]
+        fin0 = max(i for i, o in enumerate(olog) if o[0] == "s" and o[1] == 0)
+        for (pl, pbuf, pfl) in cuts_of(olog, 0):
+            if int(pl[2:].split("+")[0]) >= fin0:
+                cases.append(C.read_case(-1, pbuf, None, [("it", -1)]))
+                meta.append((one, oexp, ocommitted, pl, None, pfl, False))
+                cases.append(C.read_case(code40, pbuf, None, [("readall",)]))
+                meta.append((one, oexp, ocommitted, pl, None, pfl, "bulk"))
     rep.cov["rule"] = ("%d workloads (%d types x {w w f w, w f w w f, f w w}, shapes with NaN/inf/special values): the real "
                        "operation traces of both destinations (equal to the model's: compared) are cut at EVERY operation "
                        "boundary and at every byte inside the writes of the first operations and of every header rewrite; the "
@@ -113,6 +148,14 @@ def run(rep, tier, rng):
         msg = None
         if r in ([2], [-2], [-5]):
             msg = "panic or dead process on a crash state"
+        elif with_idx == "bulk":
+            rd = C.parse_read(r, [("readall",)])
+            if rd.get("panic") or ("ops" in rd and rd["ops"][0]["all"][0] == "panic"):
+                msg = "the bulk read panicked on the crash state %s" % pl
+            elif "ops" in rd and rd["ops"][0]["all"][0] == "ok":
+                vals = rd["ops"][0]["all"][1]
+                if len(vals) > len(exp) or any(not P.same_modulo(exp[i][0], exp[i][1], v) for i, v in enumerate(vals)):
+                    msg = "the bulk read of the crash state %s returned something else than a prefix of the written shapes" % pl
         else:
             ops = [("it", -1), ("nth", 0)] if with_idx else [("it", -1)]
             rd = C.parse_read(r, ops)
